@@ -31,6 +31,7 @@ http://www.musicxml.org/xml.html
 from __future__ import absolute_import
 
 import datetime
+from fractions import Fraction
 from functools import reduce
 from xml.dom.minidom import Document
 
@@ -62,6 +63,17 @@ def _lcm(a=None, b=None, terms=None):
         return reduce(lambda a, b: _lcm(a, b), terms)
     else:
         return (a * b) / _gcd(a, b)
+
+
+def _quarter_lengths(bar):
+    """Return the exact length in quarter notes of every entry in the bar."""
+    result = []
+    for nc in bar:
+        (base, dots, rat1, rat2) = value.determine(nc[1])
+        length = Fraction(4) / Fraction(base)
+        length = length * (2 - Fraction(1, 2 ** dots)) * Fraction(rat2, rat1)
+        result.append(length)
+    return result
 
 
 def _note2musicxml(note):
@@ -104,10 +116,10 @@ def _bar2musicxml(bar):
     attributes = doc.createElement("attributes")
 
     # calculate divisions by using the LCM
-    l = []
-    for nc in bar:
-        l.append(int(value.determine(nc[1])[0]))
-    lcm = _lcm(terms=l) * 4
+    lengths = _quarter_lengths(bar)
+    lcm = 1
+    for length in lengths:
+        lcm = lcm * length.denominator // _gcd(lcm, length.denominator)
     divisions = doc.createElement("divisions")
     divisions.appendChild(doc.createTextNode(str(lcm)))
     attributes.appendChild(divisions)
@@ -131,7 +143,7 @@ def _bar2musicxml(bar):
     time.appendChild(beattype)
     attributes.appendChild(time)
     bar_node.appendChild(attributes)
-    for nc in bar:
+    for (nc, length) in zip(bar, lengths):
         time = value.determine(nc[1])
         beat = time[0]
         note_cont = nc[2]
@@ -149,7 +161,7 @@ def _bar2musicxml(bar):
 
             # convert the duration of the note
             duration = doc.createElement("duration")
-            duration.appendChild(doc.createTextNode(str(int(lcm * (4.0 / beat)))))
+            duration.appendChild(doc.createTextNode(str(int(lcm * length))))
             note.appendChild(duration)
 
             # check for dots
